@@ -245,7 +245,10 @@ class Check:
         one answer per line); returns the list of answers.  Builds the modules the driver imports first."""
         dpath = os.path.join(LEAN, 'Drivers', name + '.lean')
         mods = re.findall(r'^import\s+(VtlModel\.\S+)', open(dpath).read(), re.M)
-        for m in mods:
+        if not hasattr(self, '_built'):
+            self._built = set()
+        for m in [m for m in mods if m not in self._built]:
+            self._built.add(m)
             ok, log = self.lake_build(m)
             if not ok:
                 raise DriverError('Lean model %s does not build:\n%s' % (m, log[-2000:]))
